@@ -1455,12 +1455,13 @@ class System:
         if mod.source_path is None:
             assert mod._py_string is not None
         if mod._is_c_module:
-            self.processing_modules.append(mod.fullName())
+            modname = mod.fullName()
+            self.processing_modules.append(modname)
             self.msg("processModule", "processing %s"%(self.processing_modules), 1)
             self._introspectThing(mod._py_mod, mod, mod)
             mod.state = ProcessingState.PROCESSED
             head = self.processing_modules.pop()
-            assert head == mod.fullName()
+            assert head == modname
         else:
             builder = self.defaultBuilder(self)
             if mod._py_string is not None:
@@ -1469,13 +1470,16 @@ class System:
                 assert mod.source_path is not None
                 ast = builder.parseFile(mod.source_path, mod)
             if ast:
-                self.processing_modules.append(mod.fullName())
+                # The module can be renamed while it's processed: a class with the same name 
+                # defined in the package supersedes it (see handleDuplicate).
+                modname = mod.fullName()
+                self.processing_modules.append(modname)
                 if mod._py_string is None:
                     self.msg("processModule", "processing %s"%(self.processing_modules), 1)
                 builder.processModuleAST(ast, mod)
                 mod.state = ProcessingState.PROCESSED
                 head = self.processing_modules.pop()
-                assert head == mod.fullName()
+                assert head == modname
         self.progress(
             'process',
             self.module_count - len(self.unprocessed_modules),
